@@ -26,16 +26,25 @@ const (
 	opFirstDel
 	opLastDel
 	opSeekDel
+	// operations on the transaction itself (top-level buckets)
+	opTopCreate
+	opTopDelete
+	opTopLookup
+	opTopForEach
+	opTopRecreate
 	nOpKinds
 )
 
 var opNames = [...]string{"put", "delete", "get", "createbucket", "createbucketifnotexists", "deletenestedbucket",
 	"nestedbucket", "nextsequence", "setsequence", "sequence", "foreach", "cursor-first-next", "cursor-last-prev",
-	"cursor-seek-next", "cursor-first-delete", "cursor-last-delete", "cursor-seek-delete"}
+	"cursor-seek-next", "cursor-first-delete", "cursor-last-delete", "cursor-seek-delete",
+	"createtoplevelbucket", "deletetoplevelbucket", "toplevel-lookup", "foreachbucket", "toplevel-delete+create"}
 
-// Op is one bucket operation applied at the bucket reached from the namespace
-// bucket through Loc.
+// Op is one bucket operation applied at the bucket reached from a top-level
+// bucket (Root; "" is the namespace bucket) through Loc, or an operation on the
+// transaction's top-level buckets.
 type Op struct {
+	Root string
 	Loc  []string
 	Kind opKind
 	K, V string
@@ -44,7 +53,7 @@ type Op struct {
 
 func (o Op) mutator() bool {
 	switch o.Kind {
-	case opPut, opDel, opCreate, opCINE, opDelB, opNextSeq, opSetSeq, opFirstDel, opLastDel, opSeekDel:
+	case opPut, opDel, opCreate, opCINE, opDelB, opNextSeq, opSetSeq, opFirstDel, opLastDel, opSeekDel, opTopCreate, opTopDelete, opTopRecreate:
 		return true
 	}
 	return false
@@ -52,11 +61,25 @@ func (o Op) mutator() bool {
 
 func (o Op) name() string { return opNames[o.Kind] }
 
-func (o Op) locString() string {
-	if len(o.Loc) == 0 {
-		return "ns"
+func (o Op) topLevel() bool { return o.Kind >= opTopCreate }
+
+// rootName is the top-level bucket the operation starts from.
+func (o Op) rootName() string {
+	if o.Root == "" {
+		return string(nsKey)
 	}
-	return "ns/" + strings.Join(o.Loc, "/")
+	return o.Root
+}
+
+func (o Op) locString() string {
+	r := "ns"
+	if o.Root != "" {
+		r = "top[" + strconv.Quote(o.Root) + "]"
+	}
+	if len(o.Loc) == 0 {
+		return r
+	}
+	return r + "/" + strings.Join(o.Loc, "/")
 }
 
 func (o Op) String() string {
@@ -97,6 +120,16 @@ func (o Op) String() string {
 		s = "Cursor.Last+Delete"
 	case opSeekDel:
 		s = fmt.Sprintf("Cursor.Seek(%s)+Delete", q(o.K))
+	case opTopCreate:
+		return fmt.Sprintf("tx.CreateTopLevelBucket(%s)", q(o.K))
+	case opTopDelete:
+		return fmt.Sprintf("tx.DeleteTopLevelBucket(%s)", q(o.K))
+	case opTopLookup:
+		return fmt.Sprintf("tx.ReadWriteBucket/ReadBucket(%s)", q(o.K))
+	case opTopForEach:
+		return "tx.ForEachBucket"
+	case opTopRecreate:
+		return fmt.Sprintf("tx.DeleteTopLevelBucket(%s)+tx.CreateTopLevelBucket(%s)", q(o.K), q(o.K))
 	}
 	return o.locString() + "." + s
 }
@@ -183,8 +216,15 @@ type Universe struct {
 	Seq      bool
 	Walk     bool
 	CurDel   bool
-	MaxOps   int // program length
-	BatchOps int // program length under walletdb.Batch (a goroutine hand-off per call makes it the slowest kind)
+	// TopNames: top-level buckets next to the namespace bucket that programs create,
+	// delete, look up and list through the transaction; TopOps: bucket operations
+	// inside looked-up top-level buckets (Root set).
+	TopNames []string
+	TopOps   []Op
+	// TopRecreate: buckets that programs also drop and re-create in one operation
+	TopRecreate []string
+	MaxOps      int // program length
+	BatchOps    int // program length under walletdb.Batch (a goroutine hand-off per call makes it the slowest kind)
 	// ReopenAll: every kind/outcome is also run with close+reopen after it (one-operation programs);
 	// otherwise only walletdb.Update returning nil is.
 	ReopenAll bool
@@ -260,6 +300,16 @@ func (u *Universe) build(batchFast, haveBatch bool) {
 			}
 		}
 	}
+	for _, n := range u.TopNames {
+		u.ops = append(u.ops, Op{Kind: opTopCreate, K: n}, Op{Kind: opTopDelete, K: n}, Op{Kind: opTopLookup, K: n})
+	}
+	if len(u.TopNames) > 0 {
+		u.ops = append(u.ops, Op{Kind: opTopForEach})
+	}
+	for _, n := range u.TopRecreate {
+		u.ops = append(u.ops, Op{Kind: opTopRecreate, K: n})
+	}
+	u.ops = append(u.ops, u.TopOps...)
 	if len(u.ops) > 60000 {
 		panic("too many ops")
 	}
@@ -354,8 +404,13 @@ func (u *Universe) build(batchFast, haveBatch bool) {
 	}
 }
 
+// within applies the state bound; the namespace bucket itself is not counted.
 func (u *Universe) within(m *mbucket) bool {
-	return m.size() <= u.MaxEntries && m.maxSeq() <= u.SeqMax
+	n := m.size()
+	if m.sub(string(nsKey)) != nil {
+		n--
+	}
+	return n <= u.MaxEntries && m.maxSeq() <= u.SeqMax
 }
 
 func (u *Universe) progStrings(p []uint16) []string {
@@ -380,6 +435,14 @@ func (u *Universe) bounds() string {
 	for i, l := range u.Locs {
 		locs[i] = Op{Loc: l}.locString()
 	}
-	return fmt.Sprintf("%s: buckets %v keys %q seek %q values %q bucket-names %q seq-ops=%v walks=%v cursor-delete=%v programs<=%d ops (%d ops, %d programs, %d transitions per state); states expanded while entries<=%d and sequences<=%d; %d seed state(s)",
+	var tops []string
+	for _, o := range u.TopOps {
+		tops = append(tops, o.String())
+	}
+	top := ""
+	if len(u.TopNames) > 0 {
+		top = fmt.Sprintf("top-level buckets %q created/deleted/looked up/listed through the transaction, operations inside them %v; ", u.TopNames, tops)
+	}
+	return top + fmt.Sprintf("%s: buckets %v keys %q seek %q values %q bucket-names %q seq-ops=%v walks=%v cursor-delete=%v programs<=%d ops (%d ops, %d programs, %d transitions per state); states expanded while entries<=%d and sequences<=%d; %d seed state(s)",
 		u.Name, locs, u.Keys, u.SeekKeys, u.Vals, u.BNames, u.Seq, u.Walk, u.CurDel, u.MaxOps, len(u.ops), len(u.progs), len(u.items), u.MaxEntries, u.SeqMax, 1+len(u.Seeds))
 }
